@@ -4,14 +4,14 @@ CONSTANT MaxOpts, MaxTags
 
 Names == {"svc", "my svc", ""}
 Addrs == {[addr |-> "10.0.0.1", v6 |-> FALSE], [addr |-> "fd00::1", v6 |-> TRUE], [addr |-> "::ffff:10.0.0.7", v6 |-> TRUE], [addr |-> "", v6 |-> FALSE]}   \* "" = use the node address 10.9.9.9
-Prefixes == {"/x", "h.com/x", "H.COM/x/Y", ":1234", "/[", "nohost.com"}
+Prefixes == {"/x", "h.com/x", "H.COM/x/Y", ":1234", "/[", "nohost.com", "@nlprefix"}   \* "@nlprefix": a prefix with a tab and line breaks followed by route commands (spelled by the harness)
 MCLowerHost == [p \in Prefixes |-> IF p = "H.COM/x/Y" THEN "h.com/x/Y" ELSE p]
 MCBadNames == {"my svc", ""}
-MCBadGlobs == {"/["}
+MCBadGlobs == {"/[", "@nlprefix"}    \* prefixes that cannot be written as the <src> of a one-line command
 MCBadWeights == {"abc", "Inf", "NaN", "1e999", "-Inf", "0x1p-2"}
 Opts == {Opt("weight", "0.5"), Opt("weight", "abc"), Opt("weight", "Inf"), Opt("weight", "NaN"), Opt("weight", "1e999"),
          Opt("weight", "0.25"),
-         Opt("strip", "/x"), Opt("proto", "tcp"), Opt("proto", "https"), Opt("proto", "grpc"), Opt("proto", "ftp"),
+         Opt("strip", "/x"), Opt("prepend", "/api;v=1"), Opt("proto", "tcp"), Opt("proto", "https"), Opt("proto", "grpc"), Opt("proto", "ftp"),
          Opt("host", "dst"), Opt("foo", "bar"), Opt("q", "a\"b"),
          [k |-> "redirect", v |-> "301,https://t.example/$path", txt |-> "redirect=301,https://t.example/$path",
           code |-> "301", url |-> "https://t.example/$path"]}
